@@ -215,3 +215,31 @@ Theorem C10_unused_import_refuted_before_fix :
      = [bs "c10types"].
 Proof. vm_compute. repeat split; reflexivity. Qed.
 Print Assumptions C10_unused_import_refuted_before_fix.
+
+(* Two models of Dumper.TypeLit: this file's [type_lit] / [print_ty local] (a tree with package paths, printed with a
+   free [local]) and C11's [TL.type_lit] (rawNamer, ParseTypeRef, the tracker).  On the universe of this file they
+   agree: C11's model, run on the view [gview t] of a type through C03's tracker, registers exactly the foreign
+   packages of this file's tree, left to right, and its text is — in that state and every later one — what this
+   file's printer gives with the tracker's names.  Side condition [ty_okb]: named types have a package path and an
+   identifier as name, and the two decimal printers agree on the array lengths that occur (decidable; see the Example). *)
+Require Import Gengo.Proofs.RenderStackTypes.
+
+Theorem C10_C11_type_literal_agree :
+  forall (pre : list bytes) (std : option Tk.tracker) (self : bytes) (cbq : bytes -> bool) (fe ft : bool)
+         (quote : bytes -> bytes) (t : gotype) (e : TL.renv),
+    ty_okb t = true -> Forall (fun n => n <> []) (map snd e) ->
+    let e1 := add_all (pick_c03 pre std) (filter (is_foreign self) (ty_pkgs (type_lit t))) e in
+    exists a, TL.type_lit (pick_c03 pre std) parse_c15 self cbq fe ft (gview t) e = Ok (a, e1) /\
+              forall e2, ext e1 e2 -> TL.print quote a = print_ty (local_of self e2) (type_lit t).
+Proof.
+  exact (fun pre std self cbq fe ft quote t e Hok Hn =>
+           type_lit_agree (pick_c03 pre std) (pick_total pre std)
+             (fun p e n H => Gengo.Proofs.Tracker.valid_name_nonempty n (proj1 (proj2 (proj2 (proj2 (proj2 (pick_spec pre std p e n H)))))))
+             self cbq fe ft quote t Hok e Hn).
+Qed.
+Print Assumptions C10_C11_type_literal_agree.
+
+Example C10_C11_side_condition :
+  forallb (fun n => bytes_eqb (TL.dec (N.of_nat n)) (dec_nat n)) (seq 0 2000) = true
+  /\ ty_okb (TMap TString (TArray 16 (TStruct [(bs "P", t_point); (bs "B", TPtr t_box)]))) = true.
+Proof. vm_compute. split; reflexivity. Qed.
